@@ -895,3 +895,104 @@ Proof.
          [(0%nat, 1); (0%nat, 2); (0%nat, 3); (0%nat, 4); (1%nat, 1000); (1%nat, 1001); (1%nat, 1002); (1%nat, 1003)].
   split; vm_compute; reflexivity.
 Qed.
+
+(* ---------------------------------------------------------------------------------------------- *)
+(* The observation oracle Cache.check_obs holds of every complete run of the model                  *)
+(* ---------------------------------------------------------------------------------------------- *)
+Section Oracle.
+  Variables data value : Type.
+  Variable evalf : Z -> data -> value.
+  Variable filt : value -> value.
+  Variable lookup : Z -> name -> name -> option data.
+  Variable L : Z.
+  Variable fixed0 : bool.
+  Variable value_eqb : value -> value -> bool.
+  Hypothesis value_eqb_refl : forall v, value_eqb v v = true.
+
+  Notation Event := (event data value).
+
+  Notation obs_looks := (obs_looks data value).
+  Notation obs_reps := (obs_reps data value filt).
+
+  Lemma obs_looks_in : forall tr tid t c g x, In (EvLookup tid t c g x) tr -> In (mkOlook data t c g x) (obs_looks tr).
+  Proof.
+    induction tr as [|ev tr IH]; intros tid t c g x Hin; [contradiction|].
+    destruct Hin as [->|Hin]; [left; reflexivity|].
+    destruct ev; cbn [obs_looks]; try right; eauto.
+  Qed.
+
+  Lemma filter_obs_reps : forall qs tr i,
+    filter (fun r => Nat.eqb (r_i value r) i) (obs_reps qs tr) = obs_reps qs (replies_of data value i tr).
+  Proof.
+    induction tr as [|ev tr IH]; intros i; [reflexivity|].
+    destruct ev; cbn [obs_reps replies_of]; auto.
+    cbn [filter r_i]. destruct (Nat.eqb tid i); cbn [obs_reps]; rewrite IH; reflexivity.
+  Qed.
+
+  Lemma replies_of_in : forall tr i ev, In ev (replies_of data value i tr) ->
+    In ev tr /\ exists t rc rg c g v s cr r start, ev = EvReply i t rc rg c g v s cr r start.
+  Proof.
+    induction tr as [|e tr IH]; intros i ev Hin; [contradiction|].
+    destruct e; cbn [replies_of] in Hin; try (destruct (IH _ _ Hin) as [H1 H2]; split; [right; exact H1|exact H2]).
+    destruct (Nat.eqb_spec tid i) as [->|Hne].
+    - destruct Hin as [<-|Hin].
+      + split; [left; reflexivity|]. repeat eexists.
+      + destruct (IH _ _ Hin) as [H1 H2]. split; [right; exact H1|exact H2].
+    - destruct (IH _ _ Hin) as [H1 H2]. split; [right; exact H1|exact H2].
+  Qed.
+
+  Lemma bytes_eqb_refl : forall a, bytes_eqb a a = true.
+  Proof. intros a. apply bytes_eqb_eq. reflexivity. Qed.
+
+  Theorem check_obs_sound : forall (qs : list oreq) sched slack,
+    cfg_ok L fixed0 ->
+    let tr := trace (run data value evalf lookup mk_key split_key L fixed0 (map (fun q => (q_c q, q_g q)) qs) sched) in
+    (forall i, (i < length qs)%nat -> (5 <= occ i sched)%nat) ->
+    (forall i t rc rg c g v s cr r start q,
+        In (EvReply i t rc rg c g v s cr r start) tr -> nth_error qs i = Some q ->
+        cr - s <= slack /\ q_t q <= start) ->
+    Forall (fun z => z = 0)
+           (check_obs data value evalf filt L value_eqb slack qs (obs_looks tr) (obs_reps qs tr)).
+  Proof.
+    intros qs sched slack Hcfg tr Hsched Hdelay. unfold check_obs.
+    assert (Hgen : forall qs' i0, (forall j q, nth_error qs' j = Some q -> nth_error qs (i0 + j) = Some q) ->
+              Forall (fun z => z = 0)
+                     (check_from data value evalf filt L value_eqb slack (obs_looks tr) (obs_reps qs tr) i0 qs')).
+    { induction qs' as [|q qs' IH]; intros i0 Hnth; cbn [check_from]; constructor.
+      - assert (Hq : nth_error qs i0 = Some q) by (rewrite <- (Nat.add_0_r i0); apply Hnth; reflexivity).
+        assert (Hlt : (i0 < length qs)%nat) by (apply nth_error_Some; congruence).
+        set (reqs := map (fun q => (q_c q, q_g q)) qs) in *.
+        destruct (one_reply_named data value evalf lookup L fixed0 reqs sched i0 Hcfg) as (_ & Hone & _ & Hnam).
+        fold tr in Hone, Hnam.
+        assert (Hlen : length (replies_of data value i0 tr) = 1%nat).
+        { apply Hone; [unfold reqs; rewrite map_length; exact Hlt|apply Hsched; exact Hlt]. }
+        destruct (replies_of data value i0 tr) as [|ev [|ev' rest]] eqn:Er; try discriminate.
+        destruct (replies_of_in tr i0 ev) as (Hin & t & rc & rg & c & g & v & s & cr & r & start & ->);
+          [rewrite Er; left; reflexivity|].
+        destruct (Hnam _ _ _ _ _ _ _ _ _ _ Hin) as (Hreq & -> & ->).
+        destruct (staleness_bound data value evalf lookup L fixed0 reqs sched _ _ _ _ _ _ _ _ _ _ _ Hcfg Hin)
+          as (Hv & (tid' & Hlk) & H1 & H2 & H3 & H4 & H5).
+        destruct (Hdelay _ _ _ _ _ _ _ _ _ _ _ q Hin Hq) as (Hd1 & Hd2).
+        assert (Hnames : rc = q_c q /\ rg = q_g q).
+        { unfold reqs in Hreq. rewrite nth_error_map, Hq in Hreq. cbn in Hreq. inversion Hreq. split; reflexivity. }
+        destruct Hnames as [-> ->].
+        unfold check_req. rewrite filter_obs_reps, Er. cbn [obs_reps r_c r_g r_t r_v].
+        rewrite !bytes_eqb_refl. cbn [andb].
+        assert (Hex : existsb
+           (fun l => bytes_eqb (l_c data l) (q_c q) && bytes_eqb (l_g data l) (q_g q) && (l_t data l <=? t)
+                     && (q_t q - l_t data l <=? L + slack)
+                     && body_eqb value value_eqb (option_map (view value filt (sa_of qs i0)) v)
+                          (option_map (fun d => view value filt (q_sa q) (evalf (l_t data l) d)) (l_x data l)))
+           (obs_looks tr) = true).
+        { apply existsb_exists. exists (mkOlook data s (q_c q) (q_g q) (lookup s (q_c q) (q_g q))).
+          split; [eapply obs_looks_in; exact Hlk|]. cbn [l_c l_g l_t l_x].
+          rewrite !bytes_eqb_refl. cbn [andb].
+          assert (E1 : (s <=? t) = true) by (apply Z.leb_le; lia).
+          assert (E2 : (q_t q - s <=? L + slack) = true) by (apply Z.leb_le; lia).
+          rewrite E1, E2. cbn [andb]. unfold sa_of. rewrite Hq, Hv.
+          destruct (lookup s (q_c q) (q_g q)); cbn [option_map body_eqb]; auto. }
+        rewrite Hex. reflexivity.
+      - apply IH. intros j q' Hj. replace (S i0 + j)%nat with (i0 + S j)%nat by lia. apply Hnth. exact Hj. }
+    apply Hgen. intros j q Hj. exact Hj.
+  Qed.
+End Oracle.
